@@ -620,10 +620,12 @@ pub const CLOSED_TYPES: &[&str] = &["text", "integer", "my_enum", "varchar(10)",
 pub struct Gen { pub rng: SplitMix64, pub b: B, /// only constructs every backend renders without panicking and whose raw text is closed
     pub tame: bool,
     /// a template with a placeholder inside `[..]` was generated (known finding C01-template-mark-in-brackets)
-    pub bracket_mark: bool }
+    pub bracket_mark: bool,
+    /// caller-supplied raw text containing quoted text was generated (outside the plain-raw hypothesis of the C01 / C02 theorems)
+    pub raw_quoted: bool }
 
 impl Gen {
-    pub fn new(rng: SplitMix64, b: B, tame: bool) -> Self { Gen { rng, b, tame, bracket_mark: false } }
+    pub fn new(rng: SplitMix64, b: B, tame: bool) -> Self { Gen { rng, b, tame, bracket_mark: false, raw_quoted: false } }
     fn name(&mut self) -> String { if self.tame || self.rng.chance(3, 4) { self.rng.pick(PLAIN_NAMES).to_string() } else { self.rng.pick(NAMES).to_string() } }
     pub fn value(&mut self) -> Val {
         let r = &mut self.rng;
@@ -661,10 +663,10 @@ impl Gen {
         match self.rng.below(100) {
             0..=39 => Ex::Col(self.plain_col()), 40..=64 => Ex::Val(self.value()), 65..=69 => Ex::Const(self.value()),
             70..=74 => Ex::Kw(match self.rng.below(5) { 0 => Kw::Null, 1 => Kw::CurrentDate, 2 => Kw::CurrentTime, 3 => Kw::CurrentTimestamp, _ => Kw::Custom(self.rng.pick(&["DEFAULT", "MAXVALUE", "k w"]).to_string()) }),
-            75..=81 => Ex::Cust(if self.tame { self.rng.pick(CLOSED_CUSTOMS).to_string() } else { self.rng.pick(CUSTOMS).to_string() }),
+            75..=81 => { let c = if self.tame { self.rng.pick(CLOSED_CUSTOMS).to_string() } else { self.rng.pick(CUSTOMS).to_string() }; if c.contains(['\'', '"', '`', '?', '$', '[']) { self.raw_quoted = true; } Ex::Cust(c) }
             82..=85 => { let n = self.rng.below(4) as usize; Ex::Vals((0..n).map(|_| self.value()).collect()) }
             86..=88 => Ex::Col(ColRef::Star),
-            89..=91 => Ex::CustW(self.rng.pick(&["cw", "now()", "'a?b'", "1"]).to_string(), vec![]),
+            89..=91 => { let t = self.rng.pick(&["cw", "now()", "'a?b'", "1"]).to_string(); if t.contains('\'') { self.raw_quoted = true; } Ex::CustW(t, vec![]) }
             _ => Ex::Val(self.small_int()),
         }
     }
@@ -681,6 +683,7 @@ impl Gen {
             if self.b == B::Postgres { self.rng.pick(td) } else if self.b == B::Mysql && self.rng.chance(1, 3) { self.rng.pick(tqb) } else { self.rng.pick(tq) }
         } else if self.b == B::Postgres { self.rng.pick(d) } else { self.rng.pick(q) };
         if t == "a[?]" || t == "a[$1]" { self.bracket_mark = true; }
+        if t.contains(['\'', '"', '`']) { self.raw_quoted = true; }
         let n = if !self.tame && self.rng.chance(1, 25) { n.saturating_sub(1) } else if self.rng.chance(1, 12) { n + 1 } else { n };
         Ex::CustW(t.to_string(), (0..n).map(|_| self.ex(depth.saturating_sub(1))).collect())
     }
